@@ -67,6 +67,13 @@ def record_checks(d, x, val, info, f, table, rterms, passthrough=False, tame=Tru
         pass
     steps = [np.asarray(s) for s in d.step(xi, d.method, d.n, d.method_order)] if d.n else [np.zeros_like(xi, dtype=float)]
     S = len(steps)
+    if d.n and S and tame:
+        # "final_step lies within the range of the generated steps" (every class; which row it is exactly is decided below where the
+        # Pipeline table applies)
+        mags = np.abs(np.concatenate([np.ravel(s_) for s_ in steps]))
+        fabs = np.abs(fin[finite]) if finite.any() else np.zeros(0)
+        if mags.size and fabs.size and not ((fabs >= mags.min() * (1 - 1e-12)).all() and (fabs <= mags.max() * (1 + 1e-12)).all()):
+            probs.append('final_step: %s outside the range of the generated steps [%.3g, %.3g]' % (np.ravel(fin)[:4].tolist(), mags.min(), mags.max()))
     if d.n == 0 or d.method == 'multicomplex' or passthrough:
         nr = 0
     else:
